@@ -711,3 +711,15 @@ Definition skip_selection_args (s : schema) (ds : list directive) (vs : vars) : 
   | Rejected k p => Rejected k p
   | Crash c => Crash c
   end.
+
+(* what a resolver (info.get_directive_arguments) or _skip_selection gets for a
+   directive of the request: variables coerced first, then the directive node *)
+Definition exec_directive_args (s : schema) (defs : list ifield) (vds : list var_def)
+           (dname : str) (ds : list directive) (raw : list (str * json))
+  : outcome (option (list (str * pv))) :=
+  match coerce_variable_values s vds raw with
+  | Ok vs => directive_arguments s defs dname ds vs
+  | OutOfFuel => OutOfFuel
+  | Rejected k p => Rejected k p
+  | Crash c => Crash c
+  end.
